@@ -207,7 +207,7 @@ impl<'tcx> Cx<'tcx> {
       }
       K::Tup(es) => self.node("tup", e.span, vec![("es", J::Arr(es.iter().map(|a| self.expr(a)).collect()))]),
       K::Array(es) => self.node("array", e.span, vec![("es", J::Arr(es.iter().map(|a| self.expr(a)).collect()))]),
-      K::Repeat(v, _) => self.node("repeat", e.span, vec![("e", self.expr(v))]),
+      K::Repeat(v, _) => self.node("repeat", e.span, vec![("e", self.expr(v)), ("ty", J::s(ty_str(tcx, self.tr.expr_ty(e))))]),
       K::Binary(op, l, r) => {
         let mut o = J::obj();
         o.push(("op", J::s(format!("{:?}", op.node))));
